@@ -25,6 +25,7 @@ class Party:
         self.result = None        # ("ok", Connection) | ("err", Failure)
         self.connect_called_at = None
         self.connect_fired_at = None
+        self.connect_d = None
         self.hints = None
 
     def connect(self):
@@ -43,6 +44,7 @@ class Party:
             self.world.sim.ev("connect_err", self.name, f.type.__name__)
             return None
         d.addCallbacks(ok, bad)
+        self.connect_d = d
         return d
 
 
